@@ -1,4 +1,5 @@
 import SaphyrVerif.Lemmas.C17Rows
+import SaphyrVerif.Lemmas.C17Breaks
 /-!
 Helper lemmas for C17, part 6: `crop_window_text` and `crop_source_window` as a whole.
 -/
@@ -307,19 +308,25 @@ theorem dropRows_blen_le (k : Nat) (s : List Char) : blen (dropRows k s) ≤ ble
   have := congrArg blen (takeRows_append_dropRows k s)
   rw [blen_append] at this; omega
 
-/-- what `crop_source_window` returns: nothing, or the rows `ws..=we` around the (relative) error row
-`rel` — verbatim, or (storage crop of very long lines) with every row cropped horizontally and
+theorem normBreaks_stripBom_length_le (t : List Char) : (normBreaks (stripBom t)).length ≤ t.length := by
+  rw [normBreaks_length]; exact stripBom_length_le t
+
+theorem normBreaks_stripBom_blen_le (t : List Char) : blen (normBreaks (stripBom t)) ≤ blen t := by
+  rw [normBreaks_blen]; exact stripBom_blen_le t
+
+/-- what `crop_source_window` returns: nothing, or the rows `ws..=we` (of the BOM-stripped text with its
+line breaks normalised) around the (relative) error row `rel` — verbatim, or (storage crop of very long lines) with every row cropped horizontally and
 sanitised, the number of rows kept. Never a panic. -/
 theorem cropSourceWindow_spec (text0 : List Char) (loc : Snippet.Loc) (m : Mapping) (r : Nat)
     (hlen : text0.length + 1 ≤ usizeMax) (hb : blen text0 ≤ usizeMax) (hcol : loc.column ≤ usizeMax) :
     ∃ out sl, cropSourceWindow text0 loc m r = .ok (out, sl) ∧
       (out = [] ∨
        ∃ rel ws we, relativeRow m loc.line = some rel ∧ 1 ≤ ws ∧ ws ≤ rel ∧ rel ≤ we ∧
-          we ≤ (stripBom text0).count '\n' + 1 ∧ we - ws ≤ 2 * ctxLines ∧ sl = absoluteRow m ws ∧
-          we = min (satAdd rel ctxLines) ((stripBom text0).count '\n' + 1) ∧
-          (out = takeRows (we - (ws - 1)) (dropRows (ws - 1) (stripBom text0)) ∨
-           (out.count '\n' = (takeRows (we - (ws - 1)) (dropRows (ws - 1) (stripBom text0))).count '\n' ∧
-            ((takeRows (we - (ws - 1)) (dropRows (ws - 1) (stripBom text0))).getLast? = some '\n' →
+          we ≤ (normBreaks (stripBom text0)).count '\n' + 1 ∧ we - ws ≤ 2 * ctxLines ∧ sl = absoluteRow m ws ∧
+          we = min (satAdd rel ctxLines) ((normBreaks (stripBom text0)).count '\n' + 1) ∧
+          (out = takeRows (we - (ws - 1)) (dropRows (ws - 1) (normBreaks (stripBom text0))) ∨
+           (out.count '\n' = (takeRows (we - (ws - 1)) (dropRows (ws - 1) (normBreaks (stripBom text0)))).count '\n' ∧
+            ((takeRows (we - (ws - 1)) (dropRows (ws - 1) (normBreaks (stripBom text0)))).getLast? = some '\n' →
                 out.getLast? = some '\n') ∧
             clean out = true))) := by
   unfold cropSourceWindow
@@ -331,53 +338,53 @@ theorem cropSourceWindow_spec (text0 : List Char) (loc : Snippet.Loc) (m : Mappi
     | none => exact ⟨[], _, rfl, .inl rfl⟩
     | some rel =>
       simp only []
-      by_cases h1 : (lineStarts (stripBom text0)).isEmpty = true
+      by_cases h1 : (lineStarts (normBreaks (stripBom text0))).isEmpty = true
       · rw [if_pos h1]; exact ⟨[], 1, rfl, .inl rfl⟩
       · rw [if_neg h1]
-        have hne : stripBom text0 ≠ [] := fun h => h1 ((lineStarts_nil_iff _).mpr h)
+        have hne : normBreaks (stripBom text0) ≠ [] := fun h => h1 ((lineStarts_nil_iff _).mpr h)
         rw [lineStarts_length _ hne]
-        by_cases h2 : rel = 0 ∨ rel > (stripBom text0).count '\n' + 1
+        by_cases h2 : rel = 0 ∨ rel > (normBreaks (stripBom text0)).count '\n' + 1
         · rw [if_pos h2]; exact ⟨[], _, rfl, .inl rfl⟩
         · rw [if_neg h2]
           have hrel_le : rel ≤ usizeMax := by
-            have := length_le_blen (stripBom text0)
-            have h3 : (stripBom text0).count '\n' ≤ (stripBom text0).length := List.count_le_length
-            have := stripBom_length_le text0
+            have := length_le_blen (normBreaks (stripBom text0))
+            have h3 : (normBreaks (stripBom text0)).count '\n' ≤ (normBreaks (stripBom text0)).length := List.count_le_length
+            have := normBreaks_stripBom_length_le text0
             omega
-          obtain ⟨f1, f2, f3, f4, f5⟩ := windowRows_facts rel ((stripBom text0).count '\n' + 1) (by omega) (by omega) hrel_le
-          have f6 : (windowRows rel ((stripBom text0).count '\n' + 1)).2 =
-              min (satAdd rel ctxLines) ((stripBom text0).count '\n' + 1) := rfl
-          generalize hws : (windowRows rel ((stripBom text0).count '\n' + 1)).1 = ws at f1 f2 f3 f4 f5
-          generalize hwe : (windowRows rel ((stripBom text0).count '\n' + 1)).2 = we at f1 f2 f3 f4 f5 f6
-          have hpair : windowRows rel ((stripBom text0).count '\n' + 1) = (ws, we) := by
+          obtain ⟨f1, f2, f3, f4, f5⟩ := windowRows_facts rel ((normBreaks (stripBom text0)).count '\n' + 1) (by omega) (by omega) hrel_le
+          have f6 : (windowRows rel ((normBreaks (stripBom text0)).count '\n' + 1)).2 =
+              min (satAdd rel ctxLines) ((normBreaks (stripBom text0)).count '\n' + 1) := rfl
+          generalize hws : (windowRows rel ((normBreaks (stripBom text0)).count '\n' + 1)).1 = ws at f1 f2 f3 f4 f5
+          generalize hwe : (windowRows rel ((normBreaks (stripBom text0)).count '\n' + 1)).2 = we at f1 f2 f3 f4 f5 f6
+          have hpair : windowRows rel ((normBreaks (stripBom text0)).count '\n' + 1) = (ws, we) := by
             rw [← hws, ← hwe]
-          obtain ⟨hwb, hsl⟩ := window_slice (stripBom text0) hne ws we f1 (by omega) f4 "crop_source_window"
+          obtain ⟨hwb, hsl⟩ := window_slice (normBreaks (stripBom text0)) hne ws we f1 (by omega) f4 "crop_source_window"
             "crop_source_window:text[window_start..window_end]"
           rw [hwb]
           simp only [res_bind_ok]
           rw [hsl]
           simp only [res_bind_ok]
-          generalize hw : takeRows (we - (ws - 1)) (dropRows (ws - 1) (stripBom text0)) = w
+          generalize hw : takeRows (we - (ws - 1)) (dropRows (ws - 1) (normBreaks (stripBom text0))) = w
           have hwlen : w.length ≤ text0.length := by
             rw [← hw]
-            have a1 := takeRows_length_le (we - (ws - 1)) (dropRows (ws - 1) (stripBom text0))
-            have a2 := dropRows_length_le (ws - 1) (stripBom text0)
-            have a3 := stripBom_length_le text0
+            have a1 := takeRows_length_le (we - (ws - 1)) (dropRows (ws - 1) (normBreaks (stripBom text0)))
+            have a2 := dropRows_length_le (ws - 1) (normBreaks (stripBom text0))
+            have a3 := normBreaks_stripBom_length_le text0
             omega
           have hwblen : blen w ≤ blen text0 := by
             rw [← hw]
-            have a1 := takeRows_blen_le (we - (ws - 1)) (dropRows (ws - 1) (stripBom text0))
-            have a2 := dropRows_blen_le (ws - 1) (stripBom text0)
-            have a3 := stripBom_blen_le text0
+            have a1 := takeRows_blen_le (we - (ws - 1)) (dropRows (ws - 1) (normBreaks (stripBom text0)))
+            have a2 := dropRows_blen_le (ws - 1) (normBreaks (stripBom text0))
+            have a3 := normBreaks_stripBom_blen_le text0
             omega
           have hcommon : ∀ out : List Char, (out = w ∨ (out.count '\n' = w.count '\n' ∧
                 (w.getLast? = some '\n' → out.getLast? = some '\n') ∧ clean out = true)) →
               (out = [] ∨ ∃ rel' ws' we', some rel = some rel' ∧ 1 ≤ ws' ∧ ws' ≤ rel' ∧ rel' ≤ we' ∧
-                we' ≤ (stripBom text0).count '\n' + 1 ∧ we' - ws' ≤ 2 * ctxLines ∧ absoluteRow m ws = absoluteRow m ws' ∧
-                we' = min (satAdd rel' ctxLines) ((stripBom text0).count '\n' + 1) ∧
-                (out = takeRows (we' - (ws' - 1)) (dropRows (ws' - 1) (stripBom text0)) ∨
-                 (out.count '\n' = (takeRows (we' - (ws' - 1)) (dropRows (ws' - 1) (stripBom text0))).count '\n' ∧
-                  ((takeRows (we' - (ws' - 1)) (dropRows (ws' - 1) (stripBom text0))).getLast? = some '\n' →
+                we' ≤ (normBreaks (stripBom text0)).count '\n' + 1 ∧ we' - ws' ≤ 2 * ctxLines ∧ absoluteRow m ws = absoluteRow m ws' ∧
+                we' = min (satAdd rel' ctxLines) ((normBreaks (stripBom text0)).count '\n' + 1) ∧
+                (out = takeRows (we' - (ws' - 1)) (dropRows (ws' - 1) (normBreaks (stripBom text0))) ∨
+                 (out.count '\n' = (takeRows (we' - (ws' - 1)) (dropRows (ws' - 1) (normBreaks (stripBom text0)))).count '\n' ∧
+                  ((takeRows (we' - (ws' - 1)) (dropRows (ws' - 1) (normBreaks (stripBom text0)))).getLast? = some '\n' →
                       out.getLast? = some '\n') ∧ clean out = true))) := by
             intro out ho
             right
@@ -408,16 +415,23 @@ theorem stripBom_count_nl (t : List Char) : (stripBom t).count '\n' = t.count '\
     · rw [if_pos h, count_nl_cons, if_neg (by intro hc; rw [hc] at h; revert h; decide)]; rfl
     · rw [if_neg h]
 
-/-- `line_count_including_trailing_empty_line` of a non-empty text is its number of line breaks + 1 -/
-theorem lineCount_eq (t : List Char) (h : t ≠ []) : lineCount t = t.count '\n' + 1 := by
+theorem normBreaks_stripBom_count_nl (t : List Char) :
+    (normBreaks (stripBom t)).count '\n' = (normBreaks t).count '\n' := by
+  rw [normBreaks_stripBom, stripBom_count_nl]
+
+/-- `line_count_including_trailing_empty_line` of a non-empty text is its number of line breaks
+(LF, CRLF, lone CR: the line feeds of the normalised text) + 1 -/
+theorem lineCount_eq (t : List Char) (h : t ≠ []) : lineCount t = (normBreaks t).count '\n' + 1 := by
   unfold lineCount
   simp only []
-  have he : t.isEmpty = false := by cases t <;> simp_all
+  have hn : normBreaks t ≠ [] := fun h0 => h ((normBreaks_eq_nil t).mp h0)
+  generalize normBreaks t = u at hn
+  have he : u.isEmpty = false := by cases u <;> simp_all
   rw [he]
   simp only [Bool.false_eq_true, if_false]
-  by_cases hl : t.getLast? = some '\n'
+  by_cases hl : u.getLast? = some '\n'
   · rw [if_pos hl, if_pos hl]
-    have : 1 ≤ t.count '\n' := List.count_pos_iff.mpr (List.mem_of_getLast? hl)
+    have : 1 ≤ u.count '\n' := List.count_pos_iff.mpr (List.mem_of_getLast? hl)
     omega
   · rw [if_neg hl, if_neg hl]; omega
 
